@@ -360,3 +360,73 @@ func VerifHarness_C15_input_skipped() {
 		verifRoundTripMetrics(p, c, md, "C03.rt")
 	}
 }
+
+// VerifHarness_rt_parents: PARENTS (3) distinct resources, each with one distinct scope and one item; the
+// resource, the scope and the item each carry the attribute "k" with a symbolic one-byte value (WHICH = 0: on the
+// resources, 1: on the scopes, 2: on the items; the others carry none). Three or more parents of one attribute
+// table sharing a key with equal or different values: the delta-group parent-id encoding of that table is
+// exercised beyond the first two ids (a parent-id delta >= 2, a group change after the second parent).
+func verifParents(sig int) {
+	p, c := verifProducer(), verifConsumer()
+	n := rt.Param("PARENTS")
+	which := rt.Param("WHICH")
+	at := func(m pcommon.Map, level int, tag string) {
+		if level == which {
+			m.PutStr("k", verifOne(tag))
+		}
+	}
+	switch sig {
+	case 0:
+		td := ptrace.NewTraces()
+		for i := 0; i < n; i++ {
+			rs := td.ResourceSpans().AppendEmpty()
+			rs.SetSchemaUrl(string([]byte{'u', byte('0' + i)}))
+			at(rs.Resource().Attributes(), 0, "res.k")
+			ss := rs.ScopeSpans().AppendEmpty()
+			ss.Scope().SetName(string([]byte{'s', byte('0' + i)}))
+			at(ss.Scope().Attributes(), 1, "scope.k")
+			sp := ss.Spans().AppendEmpty()
+			sp.SetSpanID(pcommon.SpanID{1, byte(i + 1)})
+			sp.SetTraceID(pcommon.TraceID{1})
+			sp.SetName("span")
+			at(sp.Attributes(), 2, "item.k")
+		}
+		verifRoundTrip(p, c, td, "C01.rt")
+	case 1:
+		ld := plog.NewLogs()
+		for i := 0; i < n; i++ {
+			rl := ld.ResourceLogs().AppendEmpty()
+			rl.SetSchemaUrl(string([]byte{'u', byte('0' + i)}))
+			at(rl.Resource().Attributes(), 0, "res.k")
+			sl := rl.ScopeLogs().AppendEmpty()
+			sl.Scope().SetName(string([]byte{'s', byte('0' + i)}))
+			at(sl.Scope().Attributes(), 1, "scope.k")
+			lr := sl.LogRecords().AppendEmpty()
+			lr.SetSpanID(pcommon.SpanID{1, byte(i + 1)})
+			lr.SetTimestamp(pcommon.Timestamp(100 + i))
+			at(lr.Attributes(), 2, "item.k")
+		}
+		verifRoundTripLogs(p, c, ld, "C02.rt")
+	default:
+		md := pmetric.NewMetrics()
+		for i := 0; i < n; i++ {
+			rm := md.ResourceMetrics().AppendEmpty()
+			rm.SetSchemaUrl(string([]byte{'u', byte('0' + i)}))
+			at(rm.Resource().Attributes(), 0, "res.k")
+			sm := rm.ScopeMetrics().AppendEmpty()
+			sm.Scope().SetName(string([]byte{'s', byte('0' + i)}))
+			at(sm.Scope().Attributes(), 1, "scope.k")
+			m := sm.Metrics().AppendEmpty()
+			m.SetName(string([]byte{'m', byte('0' + i)}))
+			dp := m.SetEmptyGauge().DataPoints().AppendEmpty()
+			dp.SetTimestamp(pcommon.Timestamp(100 + i))
+			dp.SetIntValue(int64(i + 1))
+			at(dp.Attributes(), 2, "item.k")
+		}
+		verifRoundTripMetrics(p, c, md, "C03.rt")
+	}
+}
+
+func VerifHarness_C01_rt_parents() { verifParents(0) }
+func VerifHarness_C02_rt_parents() { verifParents(1) }
+func VerifHarness_C03_rt_parents() { verifParents(2) }
